@@ -225,7 +225,19 @@ func (cs *Contracts) LoadContractFile(path, pkgPath string, external bool) {
 		case strings.HasPrefix(word, "lemma[") && curUFun != nil:
 			// lemma[k] expr : proved by induction on parameter k, then available as an axiom
 			// the bracket may contain spaces: re-split on the closing bracket
-			br := strings.Index(text, "]")
+			br := -1
+			depth := 0
+			for i, ch := range text {
+				if ch == '[' {
+					depth++
+				} else if ch == ']' {
+					depth--
+					if depth == 0 {
+						br = i
+						break
+					}
+				}
+			}
 			if br < 0 {
 				fail("bad lemma header")
 				continue
